@@ -25,7 +25,7 @@ RULE = ("arithmetic-heavy type-directed expression trees (constants, variables, 
 
 BIN = list(X.BINOPS)      # add sub mul div floordiv mod pow
 UN = list(X.UNOPS)        # neg pos
-POSITIONS = ["print", "filter-arg", "macro-default", "set", "if", "loop-filter", "with", "callblock", "import", "include", "extends", "trans", "trans-count", "trans-old"]
+POSITIONS = ["print", "filter-arg", "macro-default", "set", "if", "loop-filter", "with", "callblock", "import", "include", "extends", "trans", "trans-count", "trans-old", "do", "do-loop", "set-discard"]
 
 
 ENV_KINDS = ["class", "instance", "immutable", "async", "overlay", "table"]
@@ -49,7 +49,7 @@ def make_env(ib, iu, log, kind="class", newstyle=True):
         class Rec(base):
             intercepted_binops = bset
             intercepted_unops = uset
-        env = Rec(loader=loader, extensions=["jinja2.ext.i18n"])
+        env = Rec(loader=loader, extensions=["jinja2.ext.i18n", "jinja2.ext.do"])
         for sym in list(env.binop_table):
             env.binop_table[sym] = (lambda f, sym: lambda l, r: (log.append(("bin", sym, l, r)), pert(f(l, r)))[1])(env.binop_table[sym], sym)
         for sym in list(env.unop_table):
@@ -67,7 +67,7 @@ def make_env(ib, iu, log, kind="class", newstyle=True):
             def call_unop(self, context, operator, arg):
                 log.append(("un", operator, arg))
                 return pert(super().call_unop(context, operator, arg))
-        env = Rec(loader=loader, enable_async=(kind == "async"), extensions=["jinja2.ext.i18n"])
+        env = Rec(loader=loader, enable_async=(kind == "async"), extensions=["jinja2.ext.i18n", "jinja2.ext.do"])
         if kind == "instance":
             env.intercepted_binops = bset
             env.intercepted_unops = uset
@@ -110,6 +110,13 @@ def template_for(pos, src):
         return "{% extends 'base' %}{% block bb %}{{ " + src + " }}{% endblock %}"
     if pos in ("trans", "trans-old"):
         return "{% trans xx=" + src + " %}v {{ xx }}{% endtrans %}"
+    # positions whose value is DISCARDED: the application must reach the hook all the same
+    if pos == "do":
+        return "{% do " + src + " %}"
+    if pos == "do-loop":
+        return "{% for it in [1] %}{% do " + src + " %}{% endfor %}{% if false %}{% do " + src + " %}{% endif %}"
+    if pos == "set-discard":
+        return "{% set _dd = " + src + " %}{% set _dd = none %}"
     if pos == "trans-count":
         return "{% trans count=" + src + " %}{{ count }} item{% pluralize %}{{ count }} items{% endtrans %}"
     raise ValueError(pos)
@@ -352,6 +359,22 @@ def run_histories(ctx):
             out = ("err", X.err_class(ex))
         return out, X.canon_real_log(log) if not isinstance(log, CanonLog) else list(log)
 
+    # ---- probe of a known finding: one parsed AST compiled by two environments (the optimizer rewrites the AST in place)
+    src = "{{ (1 + 2) * x }}"
+    la, lb = [], []
+    plain, inter = make_env([], [], la, "class"), make_env(["add", "mul"], [], lb, "class")
+    ast = inter.parse(src)
+    plain.from_string(ast)                      # folds 1 + 2 inside the shared AST
+    got = (inter.from_string(ast).render(x=2), X.canon_real_log(lb))
+    lc = []
+    alone = make_env(["add", "mul"], [], lc, "class")
+    want = (alone.from_string(src).render(x=2), X.canon_real_log(lc))
+    ctx.case(key=("history", "shared-ast", src))
+    ctx.count("history_shared-ast")
+    if got != want:
+        ctx.reject({"kind": "history", "mode": "shared-ast", "src": src, "after_history": repr(got), "alone": repr(want)},
+                   f"an AST compiled first by a non-intercepting environment and then by an intercepting one: {got!r} instead of {want!r}", "C20:shared-ast")
+    ctx.validated()
     known_shown = False
     for j in range(ctx.size(120, 1500)):
         files = {"t%d" % k: template_for(POSITIONS[(j + k) % 8], X.to_src(g.gen(ctx.rng.randint(1, 3), "int"))) for k in range(4)}
